@@ -155,11 +155,30 @@ var operandPool = []string{
 	"[1 2 3 4 5] 1 3 getinterval", "(abcdef) 2 3 getinterval", "65536 array", "65536 string", "StandardEncoding",
 }
 
+// forall over dictionaries with several entries, with bodies whose effect does not depend on the order of visit
+var dictForallPrograms = []string{
+	"0 << /a 1 /b 2 /c 3 >> { exch pop add } forall", "systemdict { pop pop } forall", "<< /a 1 /b 2 >> { pop pop 7 } forall",
+	"0 systemdict { pop pop 1 add } forall", "<< /a 1 /b (x) >> { pop pop } forall", "<< /a 1 /b 2 /c 3 >> { 2 eq { exit } if pop } forall count 2 le",
+	"/n 0 def << /a 1 /b 2 >> { pop pop /n n 1 add def } forall n", "5 dict begin << /x 1 /y 2 >> { def } forall x y end",
+	"<< /a 1 /b 2 >> { stop } forall", "errordict { pop pop } forall", "0 errordict { pop pop 1 add } forall",
+}
+
 var smallPool = []string{"0", "1", "-1", "3", "9223372036854775807", "-9223372036854775808", "0.5", "true", "/a", "(abc)", "[1 2 3]", "{1}", "<< /a 1 >>", "mark"}
 var tinyPool = []string{"0", "1", "-1", "5", "9223372036854775807", "-9223372036854775808", "(ab)", "{pop}", "[1 2]"}
 
 // aliasing programs: a composite, a second view of it, a write through one, reads through both
 var aliasPrograms = []string{
+	// putinterval / copy where source and destination overlap in one store (both directions, arrays and strings)
+	"/a [1 2 3 4 5] def a 1 a 0 4 getinterval putinterval a", "/a [1 2 3 4 5] def a 0 a 1 4 getinterval putinterval a",
+	"/s (abcdef) def s 2 s 0 4 getinterval putinterval s", "/s (abcdef) def s 0 s 2 4 getinterval putinterval s",
+	"/a [1 2 3 4 5 6 7 8] def a 3 a 1 5 getinterval putinterval a 2 a 4 3 getinterval putinterval a",
+	"/a [1 2 3 4 5] def a 0 4 getinterval a 1 4 getinterval copy a", "/a [1 2 3 4 5] def a 1 4 getinterval a 0 4 getinterval copy a",
+	"/s (abcdef) def s 0 4 getinterval s 2 4 getinterval copy s", "/s (abcdef) def s 1 5 getinterval s 0 5 getinterval copy s",
+	"/a [1 2 3] def a 0 a putinterval a", "/s (xyz) def s s copy s",
+	// values a dictionary can hold: null and the file object are values like any other
+	"/v 1 array 0 get def v", "/f 7 def 3 dict begin /f currentfile def f end", "<< /a 1 array 0 get >> /a get", "<< /a 1 array 0 get >> /a known",
+	"/n 1 array 0 get def /n where", "/n 1 array 0 get def /n load", "5 dict begin /add 1 array 0 get def 1 2 add end", "/q currentfile def q currentfile eq",
+	"userdict /z 1 array 0 get put z", "/k 1 array 0 get def 2 dict begin /k 5 def end k",
 	"[1 2 3 4] dup 1 2 getinterval dup 0 99 put",
 	"[1 2 3 4] dup 1 2 getinterval exch dup 2 77 put exch",
 	"(abcdef) dup 2 3 getinterval dup 1 88 put",
@@ -207,6 +226,10 @@ func suiteOps(o *suiteOut, r *rng, tier string, n int) {
 		p.run(100000, false, a)
 		o.count("aliasing / sharing programs")
 	}
+	for _, a := range dictForallPrograms {
+		p.run(100000, false, a)
+		o.count("order-insensitive forall over dictionaries")
+	}
 	// bounded-exhaustive operator x operand tuples
 	frac := 1.0
 	if tier != "thorough" {
@@ -233,6 +256,9 @@ func suiteOps(o *suiteOut, r *rng, tier string, n int) {
 			if i == len(pools) {
 				if k >= 2 && r.float() > frac {
 					return
+				}
+				if op == "forall" && (acc[0] == "systemdict" || acc[0] == "<< /a 1 /b (x) >>") {
+					return // the order in which forall visits a dictionary is arbitrary (PLRM; Go map order): see dictForallPrograms
 				}
 				prog := strings.Join(append(append([]string{}, acc...), op), " ")
 				p.run(50000, false, prog)
